@@ -1,7 +1,8 @@
 ----------------------------- MODULE DebuggerGate -----------------------------
 (* C20, second half: the gates of the interactive debugger (DebuggedApplication).           *)
 (*                                                                                          *)
-(* cfg  = [evalex, pin_on : BOOLEAN]                                                        *)
+(* cfg  = [evalex, pin_on : BOOLEAN, pin : "A" | "B"]  (changeable while the application lives) *)
+(* old:   [evalex, pin_on : BOOLEAN]                                                        *)
 (* q    = [cmd    : "eval" | "console" | "pinauth" | "printpin" | "resource" | "none",     *)
 (*         secret : "right" | "wrong" | "absent",                                           *)
 (*         hv     : "T" | "U" | "E"    (Host trusted / untrusted / either verdict allowed), *)
@@ -20,15 +21,26 @@ EXTENDS Naturals
 Cmds    == {"eval", "console", "pinauth", "printpin", "resource", "none"}
 Secrets == {"right", "wrong", "absent"}
 HVs     == {"T", "U", "E"}
-Cookies == {"valid", "expired", "wronghash", "malformed", "absent"}
+\* "valid" / "expired" carry the hash of PIN A (the PIN the process starts with), "validB" that of PIN B
+Cookies == {"valid", "validB", "expired", "wronghash", "malformed", "absent"}
 Frames  == {"known", "console", "unknown"}
-Pins    == {"right", "wrong"}
+Pins    == {"right", "B", "wrong"}        \* entered PIN: "right" = PIN A, "B" = PIN B
 Requests == [cmd : Cmds, secret : Secrets, hv : HVs, cookie : Cookies, frame : Frames, pin : Pins]
 
 LockAfter == 10
 Locked(fails) == fails > LockAfter
 
-CookieOK(cfg, q) == ~cfg.pin_on \/ q.cookie = "valid"
+\* The configuration can change on the live application (public attributes pin / evalex / trusted_hosts):
+\* cfg = [evalex, pin_on, pin], pin \in {"A", "B"} = the PIN currently set (pin_on = FALSE: app.pin = None).
+\* A cookie opens the gate only if it is unexpired and was issued for the PIN that is set NOW.
+CookieOK(cfg, q) == \/ ~cfg.pin_on
+                    \/ q.cookie = "valid" /\ cfg.pin = "A"
+                    \/ q.cookie = "validB" /\ cfg.pin = "B"
+PinRight(cfg, q) == (q.pin = "right" /\ cfg.pin = "A") \/ (q.pin = "B" /\ cfg.pin = "B")
+\* the cookie carries the hash of another PIN than `p`
+HashOther(p, q) == \/ q.cookie = "wronghash"
+                   \/ q.cookie \in {"valid", "expired"} /\ p # "A"
+                   \/ q.cookie = "validB" /\ p # "B"
 MayTrust(q)  == q.hv \in {"T", "E"}
 MustTrust(q) == q.hv = "T"
 FrameKnown(q) == q.frame \in {"known", "console"}
@@ -45,7 +57,7 @@ Safety(cfg, fails, q, o) ==
   ELSE IF (o.auth # "none" \/ o.cookie_set \/ o.exhausted) /\ ~PinReach(q, MayTrust(q)) THEN "PinOnlyTrustedHost"
   ELSE IF o.pin_logged /\ ~(q.cmd = "printpin" /\ q.secret = "right" /\ MayTrust(q)) THEN "PinOnlyTrustedHost"
   ELSE IF o.auth = "true" /\ Locked(fails) /\ ~CookieOK(cfg, q) THEN "LockoutSticks"
-  ELSE IF o.auth = "true" /\ ~CookieOK(cfg, q) /\ q.pin # "right" THEN "AuthOnlyWithPin"
+  ELSE IF o.auth = "true" /\ ~CookieOK(cfg, q) /\ ~PinRight(cfg, q) THEN "AuthOnlyWithPin"
   ELSE IF o.cookie_set /\ o.auth # "true" THEN "CookieOnlyIfAuth"
   ELSE "ok"
 
@@ -58,7 +70,7 @@ Usability(cfg, fails, q, o) ==
   ELSE IF cfg.pin_on /\ EvalAll(cfg, q, MustTrust(q)) /\ ~o.eval_ran THEN "EvalWhenAll"
   ELSE IF cfg.evalex /\ q.cmd = "console" /\ MustTrust(q) /\ ~o.console THEN "ConsoleWhenTrusted"
   ELSE IF /\ cfg.pin_on /\ PinReach(q, MustTrust(q))
-          /\ (CookieOK(cfg, q) \/ (~Locked(fails) /\ q.pin = "right" /\ q.cookie # "wronghash"))
+          /\ (CookieOK(cfg, q) \/ (~Locked(fails) /\ PinRight(cfg, q) /\ ~HashOther(cfg.pin, q)))
           /\ o.auth # "true" THEN "AuthWhenEntitled"
   ELSE "ok"
 
@@ -81,10 +93,14 @@ ToApp   == [Nothing EXCEPT !.app_called = TRUE]
 Refused == [Nothing EXCEPT !.status = 400]
 
 \* check_pin_trust: "true" | "false" | "none" (hash mismatch)
-PinTrust(cfg, q) == IF ~cfg.pin_on THEN "true"
-                    ELSE CASE q.cookie = "valid" -> "true"
-                           [] q.cookie = "wronghash" -> "none"
-                           [] OTHER -> "false"
+\* (the hash is compared before the expiry).  Variant "mut_memohash": the hash of the PIN is memoised
+\* on first use and the pin setter does not invalidate it (deliberately broken).
+PinTrust(variant, cfg, q) ==
+  LET hp == IF variant = "mut_memohash" THEN "A" ELSE cfg.pin IN
+  IF ~cfg.pin_on THEN "true"
+  ELSE IF q.cookie \in {"absent", "malformed"} THEN "false"
+  ELSE IF HashOther(hp, q) THEN "none"
+  ELSE IF q.cookie = "expired" THEN "false" ELSE "true"
 
 \* _fail_pin_auth: the counter is an unsigned byte (multiprocessing.Value("B"))
 Bump(variant, cnt) == IF variant = "orig" THEN (cnt + 1) % 256
@@ -92,11 +108,11 @@ Bump(variant, cnt) == IF variant = "orig" THEN (cnt + 1) % 256
 
 ImplPinAuth(variant, cfg, cnt, q, trusted) ==
   IF ~trusted THEN [o |-> Refused, cnt |-> cnt]
-  ELSE LET tr == PinTrust(cfg, q) IN
+  ELSE LET tr == PinTrust(variant, cfg, q) IN
     IF tr = "none" THEN [o |-> [Nothing EXCEPT !.auth = "false"], cnt |-> Bump(variant, cnt)]
     ELSE IF tr = "true" THEN [o |-> [Nothing EXCEPT !.auth = "true", !.cookie_set = TRUE], cnt |-> cnt]
     ELSE IF cnt > 10 THEN [o |-> [Nothing EXCEPT !.auth = "false", !.exhausted = TRUE], cnt |-> cnt]
-    ELSE IF q.pin = "right" THEN [o |-> [Nothing EXCEPT !.auth = "true", !.cookie_set = TRUE], cnt |-> 0]
+    ELSE IF PinRight(cfg, q) THEN [o |-> [Nothing EXCEPT !.auth = "true", !.cookie_set = TRUE], cnt |-> 0]
     ELSE [o |-> [Nothing EXCEPT !.auth = "false"], cnt |-> Bump(variant, cnt)]
 
 \* variant: "fixed" | "orig" | deliberately broken variants used to show the invariants bite
@@ -114,7 +130,7 @@ ImplStep(variant, cfg, cnt, q, trusted) ==
        (IF hostok THEN [o |-> [Nothing EXCEPT !.pin_logged = cfg.pin_on], cnt |-> cnt]
         ELSE [o |-> Refused, cnt |-> cnt])
   ELSE IF /\ q.cmd = "eval" /\ cfg.evalex /\ FrameKnown(q) /\ secok
-          /\ (PinTrust(cfg, q) = "true" \/ variant = "mut_nopin") THEN
+          /\ (PinTrust(variant, cfg, q) = "true" \/ variant = "mut_nopin") THEN
        (IF hostok THEN [o |-> [Nothing EXCEPT !.eval_ran = TRUE], cnt |-> cnt]
         ELSE [o |-> Refused, cnt |-> cnt])
   ELSE [o |-> ToApp, cnt |-> cnt]
